@@ -360,6 +360,7 @@ def loopResult (x : Except Err (Step (List Gen.Py.FrameObj × Bytes) (Except Err
   match x with
   | .error e => .error e
   | .ok (.ret r) => r.map (List.map toParsed)
+  | .ok (.brk s) => .ok (s.1.map toParsed)
   | .ok (.next s) => .ok (s.1.map toParsed)
 
 theorem loop_finish (x : Except Err (Step (List Gen.Py.FrameObj × Bytes) (Except Err (List Gen.Py.FrameObj)))) :
@@ -367,6 +368,7 @@ theorem loop_finish (x : Except Err (Step (List Gen.Py.FrameObj × Bytes) (Excep
   match x with
   | .error e => rfl
   | .ok (.ret r) => rfl
+  | .ok (.brk s) => rfl
   | .ok (.next s) => rfl
 
 /-- the `while len(payload) != 0` loop with any fuel ≥ `len(payload)` is the model's `parseFrames` (the fuel suffices
